@@ -421,7 +421,17 @@ bool vf_san_poll(void) {
     if (vf_asan_hits != san_seen_hits) { san_seen_hits = vf_asan_hits; hit = true; }
     if (san_path[0]) {
         struct stat st;
-        if (stat(san_path, &st) == 0 && st.st_size != san_seen) { san_seen = st.st_size; hit = true; }
+        if (stat(san_path, &st) == 0 && st.st_size != san_seen) {
+            /* the allocator's "failed to allocate N bytes" warnings (allocator_may_return_null=1: the call simply gets NULL) are not reports */
+            bool only_alloc_warnings = false;
+            if (st.st_size > san_seen && st.st_size - san_seen < 65536) {
+                int fd = open(san_path, O_RDONLY); size_t n = (size_t)(st.st_size - san_seen); char *b = fd >= 0 ? hm_alloc(n + 1) : NULL;
+                if (b && pread(fd, b, n, san_seen) == (ssize_t)n) { b[n] = 0; only_alloc_warnings = true;
+                    for (char *l = b; *l; ) { char *e = strchr(l, '\n'); size_t ll = e ? (size_t)(e - l) : strlen(l); if (ll && !memmem(l, ll, "failed to allocate", 18)) { only_alloc_warnings = false; break; } l += ll + (e ? 1 : 0); } }
+                if (b) hm_free(b);
+                if (fd >= 0) close(fd);
+            }
+            san_seen = st.st_size; if (!only_alloc_warnings) hit = true; }
     }
     if (hit) {
         vf_count("sanitizer_report_cases", 1);
